@@ -15,6 +15,7 @@ from pydantic import (
 from rtflite.row import (
     BORDER_CODES,
     FORMAT_CODES,
+    ROW_JUSTIFICATION_CODES,
     TEXT_JUSTIFICATION_CODES,
     VERTICAL_ALIGNMENT_CODES,
     Border,
@@ -573,9 +574,11 @@ class TableAttributes(TextAttributes):
         if v is None:
             return v
 
+        # The row emitter only knows the row justifications (l, c, r): anything
+        # else would be accepted here and rejected later, inside rtf_encode()
         for row in v:
             for justification in row:
-                if justification not in TEXT_JUSTIFICATION_CODES:
+                if justification not in ROW_JUSTIFICATION_CODES:
                     raise ValueError(f"Invalid cell justification: {justification}")
         return v
 
